@@ -787,6 +787,8 @@ impl TableLookup {
             forall|i: int| old(tr).ev.len() <= i < final(tr).ev.len() && #[trigger] final(tr).ev[i] is Send ==> announce_ok(*old(self), port, final(tr).ev[i]), // @C03.announce_only_to_token_holders_with_their_token
             only_requests_and_yields(old(tr).ev, final(tr).ev), no_yield(old(tr).ev, final(tr).ev), // @C03.finishing_yields_nothing
             (forall|h: NodeHandle| #[trigger] old(self).announce_tokens@.contains_key(h) ==> old(self).announce_tokens@[h]@.len() <= 1300) ==> forall|i: int| old(tr).ev.len() <= i < final(tr).ev.len() && #[trigger] final(tr).ev[i] is Send ==> blen(final(tr).ev[i]->Send_0) <= 1500, // @C17.announce_queries_fit_1500_bytes_when_the_remote_token_is_at_most_1300_bytes
+            // the unconditional statement (recorded known finding: a token of 1366..1435 bytes arrives in a response that fits 1500 bytes, the announce echoing it does not)
+            (forall|h: NodeHandle| #[trigger] old(self).announce_tokens@.contains_key(h) ==> 60 + bstr(old(self).announce_tokens@[h]@.len() as nat) <= 1500) ==> forall|i: int| old(tr).ev.len() <= i < final(tr).ev.len() && #[trigger] final(tr).ev[i] is Send ==> blen(final(tr).ev[i]->Send_0) <= 1500, // @C17.announce_queries_fit_1500_bytes
             final(self).active_lookups@.len() == 0 && !final(self).in_endgame,
     {
         broadcast use vstd::std_specs::hash::group_hash_axioms, nodehandle_key_model, tid_key_model;
@@ -809,6 +811,7 @@ impl TableLookup {
                     forall|i: int| ev0.len() <= i < tr.ev.len() && #[trigger] tr.ev[i] is Send ==> announce_ok(*old(self), port, tr.ev[i]),
                     only_requests_and_yields(ev0, tr.ev), no_yield(ev0, tr.ev),
                     (forall|h: NodeHandle| #[trigger] old(self).announce_tokens@.contains_key(h) ==> old(self).announce_tokens@[h]@.len() <= 1300) ==> forall|i: int| ev0.len() <= i < tr.ev.len() && #[trigger] tr.ev[i] is Send ==> blen(tr.ev[i]->Send_0) <= 1500, // @C17.announce_queries_fit_1500_bytes_when_the_remote_token_is_at_most_1300_bytes
+                    (forall|h: NodeHandle| #[trigger] old(self).announce_tokens@.contains_key(h) ==> 60 + bstr(old(self).announce_tokens@[h]@.len() as nat) <= 1500) ==> forall|i: int| ev0.len() <= i < tr.ev.len() && #[trigger] tr.ev[i] is Send ==> blen(tr.ev[i]->Send_0) <= 1500, // @C17.announce_queries_fit_1500_bytes
             {
                 broadcast use vstd::std_specs::hash::group_hash_axioms, nodehandle_key_model;
                 let ghost evb = tr.ev;
